@@ -18,7 +18,7 @@ INFO = {
         'reflective check, reported as such, not a solver result.'),
     'bounds': {
         'quick': 'pred: shapes (1,1),(2,1),(1,2,1),(1,1,1,1); valid: C13 quick menus, rate + 3 predictions, 5 base classes; bt2: (1,1),(2,1),(2,2) x 3 outcomes, limit_sigma on/off',
-        'thorough': 'pred: + (2,2,2),(3,2),(1,1,1,1,1); valid: C13 thorough menus; bt2: + (3,2),(3,3)',
+        'thorough': 'pred: + (2,2,2),(3,2),(1,1,1,1,1); valid: C13 thorough menus with PlackettLuce as base class (quick menus for the other four bases); bt2: + (3,2),(3,3)',
     },
     'outside': ['argument kinds not on the C13 menus', 'IEEE rounding in the bt2 clause'],
     'stubs': ['hash as module global of each model file -> returns its argument (rating clause only)'],
@@ -37,7 +37,7 @@ def jobs(tier):
             out.append({'name': f'pred-{op}-{H.shape_str(shape)}', 'mode': 'pred', 'op': op, 'shape': list(shape), 'budget': 900, 'cost': 10 * len(shape) ** 2})
     for key in H.ALL:
         for op in ('rate', 'predict_win', 'predict_draw', 'predict_rank'):
-            out.append({'name': f'valid-{key}-{op}', 'mode': 'valid', 'model': key, 'op': op, 'tier': tier,
+            out.append({'name': f'valid-{key}-{op}', 'mode': 'valid', 'model': key, 'op': op, 'tier': tier if key == 'pl' else 'quick',
                         'budget': 1200 if tier == 'quick' else 3000, 'cost': 400 if op == 'rate' else 20})
     out.append({'name': 'rating', 'mode': 'rating', 'budget': 300, 'cost': 5})
     out.append({'name': 'signatures', 'mode': 'sig', 'budget': 60, 'cost': 1})
